@@ -785,3 +785,39 @@ func RunGuarded[T any](h *HangGuard, key string, fn func() T) (val T, panicked s
 	}
 	return r.v, r.p, false, ""
 }
+
+// WaitGuarded runs fn exactly once (table operations are not idempotent) on its own goroutine. It waits Short; a
+// key that already hung under the long wait is then reported hung at once, otherwise the wait continues up to Long.
+func WaitGuarded(h *HangGuard, key string, fn func()) (panicked string, hung bool, stack string) {
+	done := make(chan string, 1)
+	go func() { done <- Guard(fn) }()
+	if h.Short > 0 {
+		select {
+		case p := <-done:
+			return p, false, ""
+		case <-time.After(h.Short):
+		}
+		h.mu.Lock()
+		st, ok := h.confirmed[key]
+		h.mu.Unlock()
+		if ok {
+			return "", true, st
+		}
+	}
+	select {
+	case p := <-done:
+		return p, false, ""
+	case <-time.After(h.Long):
+	}
+	buf := make([]byte, 1<<20)
+	buf = buf[:runtime.Stack(buf, true)]
+	st := blockedIn(string(buf))
+	h.mu.Lock()
+	if old, ok := h.confirmed[key]; ok {
+		st = old
+	} else {
+		h.confirmed[key] = st
+	}
+	h.mu.Unlock()
+	return "", true, st
+}
